@@ -12,16 +12,16 @@ Part 2 (checks/c11meta.py): structured vs hand-flattened module pairs and load-o
 import itertools, os, re
 from vlib.proto import hexs, unhex
 
-LEAN_TARGETS = ["LyModel.Props.C11", "LyModel.Props.C11Range"]
+LEAN_TARGETS = ["LyModel.Props.C11", "LyModel.Props.C11Range", "LyModel.Props.C11Compile"]
 AUDIT = ["Audit/C11.lean", "Audit/C11Fn.lean"]
-GENERATED = ["Consts", "IffSrc"]
+GENERATED = ["Consts", "IffSrc", "CompileSrc"]
 LEAN_TARGETS += ["LyModel.Props.C11Fn"]; GENERATED += ["FnIff"]     # functions translated from the C source (tools/c2lean.py), bridged in lean/LyModel/Bridge
 ASSUMPTIONS = [
     "if-feature: `lysp_feature_find` (prefix resolution + lookup by name) is an abstract function `lookup` in the theorems; the driver instantiates it with the module/import table of the request",
     "if-feature theorems are about YANG 1.1 modules (the YANG 1.0 `checkversion` path is covered by the correspondence only); feature names in the grammar AST are any blank/parenthesis-free words other than the literal keywords not/and/or",
     "range: `strtoll`/`strtoull` are modelled on the strings that can reach them (`[+-]?[0-9]*`), decimal64 through the normalised copy exactly as the C code builds it; the grammar theorem (range_parse_correct_partial) covers integer ranges and lengths, decimal64 is covered by the correspondence only",
     "models are parametrised by which candidate repairs (fixes/F3, F13, F30, F75) the source contains; Generated/IffSrc.lean (tools/extractors/iff.py) reads that off the C text of $VERIF_REPO on every run and refuses unknown shapes; theorems are stated for every flag value, `_fails` for the pinned tree ({}), `_fixed` for the repaired one",
-    "the schema compiler proper (uses/augment/deviation expansion) is not modelled: construct-vs-expansion equivalence and load-order independence are checked metamorphically against an RFC reference expander (tools/checks/c11meta.py), not proved; instance acceptance of the two renderings is not compared (only the effective schema text)",
+    "the expansion core of the schema compiler (uses/refine/augment/deviation, config/status/mandatory propagation) is modelled in lean/LyModel/Compile and compared with libyang's compiled tree (tools/checks/c11exp.py); compile = compile of the RFC expansion is CHECKED on every generated input and proved false in general (F390), not proved for the remaining shapes; typedef folding, submodules and load-order independence stay metamorphic (c11meta.py, c11aug.py); instance acceptance of the two renderings is not compared (only the effective schema)",
 ]
 TRUSTED = ["harness/wb_iff.c", "harness/api_compile.c", "reference grammar readers in tools/checks/c11.py (written from RFC 7950 §14)"]
 HARNESS = "wb_iff"
@@ -32,6 +32,10 @@ CRASH_KINDS = {"CrashOobWrite": "F13", "CrashOobFeat": "F13", "CrashUnderflow": 
 
 def classify(component, what, case):
     """A failing case is an instance of a known finding only if it has exactly that finding's mechanism."""
+    from checks import c11exp
+    fid = c11exp.classify_exp(component, what, case)
+    if fid:
+        return fid
     if case.get("crash") and component == "compile":
         err = case.get("stderr", "")
         # UBSan reports "schema_compile_node.c:<line>:<col>: runtime error: member access within null pointer of type
@@ -482,6 +486,8 @@ def run(cx):
     c11meta.run_meta(cx)
     from checks import c11aug
     c11aug.run_aug(cx)
+    from checks import c11exp
+    c11exp.run_exp(cx)
 
 
 def replay(cx, payload):
